@@ -168,6 +168,21 @@ fn main() {
             (check.run)(&mut ctx);
             std::process::exit(finish(ctx, &check));
         }
+        Some("stages") => {
+            // gv stages '<case json>' : print the hook snapshots of one build (triage helper)
+            let case: cfg::Case = serde_json::from_str(&args[2]).expect("case json");
+            match cfg::build_with_stages(&case.tcs, &case.cfg) {
+                Ok((p, st)) => {
+                    println!("pattern: {:?}", p);
+                    println!("test_cases: {:?}", st.test_cases);
+                    println!("clusters: {:?}", st.clusters);
+                    println!("trie: {:?}", st.trie);
+                    println!("minimized: {:?}", st.minimized);
+                    println!("expressions: {:?} (tries built: {})", st.expressions, st.tries_built);
+                }
+                Err(m) => println!("panic: {}", m),
+            }
+        }
         Some("find") => {
             let re = regex::Regex::new(&args[2]).unwrap();
             for t in &args[3..] {
